@@ -51,7 +51,7 @@ TAGS = ["a", "b", "c", "aa", "ab", "B", "é"]
 KWS = ["red", "green", "blue", "cyan"]
 GRPS = ["g1", "g2", "g3", "g4"]
 EPOCH = datetime.datetime(2020, 1, 1)
-COLFIELDS = ["tag", "n", "d", "grp", "o"]
+COLFIELDS = ["tag", "n", "d", "grp", "o", "fl", "w"]
 
 
 class Missing(object):
@@ -99,6 +99,8 @@ def make_schema(sortable, kvector):
         k=fields.KEYWORD(stored=True, vector=kvector),
         grp=fields.ID(stored=True, sortable=sortable),
         o=fields.NUMERIC(int, stored=True, sortable=sortable),
+        fl=fields.NUMERIC(float, stored=True, sortable=sortable),
+        w=fields.TEXT(stored=True, sortable=sortable),
     )
 
 
@@ -118,6 +120,10 @@ def gen_doc(rng, i, sparse):
         d["k"] = " ".join(rng.sample(KWS, rng.randint(1, 3)))
     if rng.random() > sparse:
         d["grp"] = rng.choice(GRPS)
+    if rng.random() > sparse:
+        d["fl"] = rng.choice([-2.5, -0.5, 0.0, 0.25, 1.5, 1e3])
+    if rng.random() > sparse:
+        d["w"] = rng.choice(["kilo", "lima", "mike", "november"])   # one word per document: a single-valued TEXT key
     return d
 
 
@@ -130,7 +136,12 @@ class Case(object):
         self.kvector = rng.random() < 0.3
         self.sparse = rng.choice([0.0, 0.15, 0.15, 0.3, 0.5])
         small = rng.random() < 0.25
-        sizes = [rng.randint(1, 4 if small else 12) for _ in range(self.nseg)]
+        self.big = rng.random() < 0.12
+        self.blocklimit = rng.choice([2, 4, 128, 128])
+        if self.big:
+            sizes = [rng.randint(30, 90) for _ in range(self.nseg)]
+        else:
+            sizes = [rng.randint(1, 4 if small else 12) for _ in range(self.nseg)]
         self.segments, i = [], 0
         for sz in sizes:
             seg = []
@@ -149,10 +160,11 @@ class Case(object):
 
     def layout(self):
         return {"colmode": self.colmode, "segments": [len(s) for s in self.segments], "deletes": len(self.deletes),
-                "kvector": self.kvector, "sparse": self.sparse, "schema_change_after_segment": self.split}
+                "kvector": self.kvector, "sparse": self.sparse, "schema_change_after_segment": self.split, "blocklimit": self.blocklimit}
 
     def build(self):
         from whoosh import sorting
+        from whoosh.codec.whoosh3 import W3Codec
         from whoosh.filedb.filestore import RamStorage
         st = RamStorage()
         cm = self.colmode
@@ -163,7 +175,7 @@ class Case(object):
                 ix = st.open_index(schema=make_schema(cm == "late", self.kvector))
             if cm == "added_then_more" and si == self.nseg - 1:
                 self.add_sortable(ix)
-            w = ix.writer()
+            w = ix.writer(codec=W3Codec(blocklimit=self.blocklimit))
             for d in seg:
                 w.add_document(**d)
             w.commit(merge=False)
@@ -227,7 +239,7 @@ def gen_spec(rng, env, allow_reverse=True, for_sort=True):
     r = rng.random()
     rev = allow_reverse and rng.random() < 0.4
     if r < 0.55:
-        f = rng.choice(["tag", "n", "d", "b", "id", "grp", "o", "tag", "n"])
+        f = rng.choice(["tag", "n", "d", "b", "id", "grp", "o", "tag", "n", "fl", "w"])
         return Spec("field:%s%s" % (f, ":rev" if rev else ""), "FieldFacet(%r, reverse=%r)" % (f, rev),
                     lambda: sorting.FieldFacet(f, reverse=rev), field_key(env, f), rev)
     if r < 0.63:
@@ -490,7 +502,7 @@ def gen_group_spec(rng, env):
             return sorted(set(v.split())) if v else []
         return Spec("overlap:stored:k", "StoredFieldFacet('k', allow_overlap=True)",
                     lambda mt=None: sorting.StoredFieldFacet("k", allow_overlap=True, maptype=mt), keysfn), True
-    sp = gen_spec(rng, env, allow_reverse=False)
+    sp = gen_spec(rng, env, allow_reverse=rng.random() < 0.3)
     while sp.kind in ("score", ):
         sp = gen_spec(rng, env, allow_reverse=False)
     return sp, False
@@ -575,7 +587,7 @@ def check_groups(env, nviews):
         mech = "groups:%s:%s" % (sp.kind, mtname)
         bad = None
         rest = dict(groups)
-        if sp.kind == "field:b":
+        if sp.kind in ("field:b", "field:b:rev"):
             # BOOLEAN has no column: group names are the field's own from_bytes(to_bytes(value)) (assumption: not literal True/False)
             fb = env.s.schema["b"]
             rest = dict((({fb.from_bytes(fb.to_bytes(True)): True, fb.from_bytes(fb.to_bytes(False)): False}.get(kx, kx)
@@ -884,15 +896,18 @@ def run(ctx):
             for qi in range(2):
                 q, qfn = gen_query(rng)
                 with ix.searcher() as s:
-                    w = dict(wit, query=repr(q), docs=[case.docs[k] for k in sorted(case.docs)][:60])
+                    w = dict(wit, query=repr(q), docs=[case.docs[k] for k in sorted(case.docs)][:45])
                     env = Env(ctx, rng, case, s, q, qfn, w)
                     if not base_ranking(env):
                         continue
                     shapes = []
-                    shapes += check_sorts(env, 14)
-                    shapes += check_groups(env, 8)
-                    shapes += check_collapse(env, 6)
-                    shapes += check_filters(env, 7)
+                    if case.big:
+                        ctx.count("c14.layout.big_corpus")
+                    f = 2 if case.big else 1
+                    shapes += check_sorts(env, 14 // f)
+                    shapes += check_groups(env, 8 // f)
+                    shapes += check_collapse(env, 8 // f)
+                    shapes += check_filters(env, 8 // f)
                     shapes += check_pages(env, 2)
                     for sh in shapes:
                         ctx.case((sh, sig), bool(sh[-1]),
